@@ -101,6 +101,7 @@ func runC06(c *Ctx) {
 				}
 				infallible := infallibleIdiom(c, call, 0)
 				_, suppressed := c06Suppress[construct]
+				suppressed = suppressed && !used // the suppression names the one discarding call site
 				if !used {
 					if why, ok := c06Suppress[construct]; ok {
 						c.S.OK("R1", construct, c.pos(call.Pos()), "suppressed (one named symbol): "+why, false)
